@@ -9,6 +9,7 @@
 ** with link-time wrappers around read()/write().
 */
 #include "vh.h"
+#include "foreign.h"
 #include <dirent.h>
 
 extern ssize_t __real_read (int fd, void *buf, size_t n) ;
@@ -167,6 +168,28 @@ static void fd_route (int format, int ch)
 	unlink (path) ;
 }
 
+/* a pipe whose writer went away early: every read beyond the cut returns zero bytes for ever.  The files have a skippable region larger than the header cache
+** in front of the audio data, so the parser is inside its skip-by-reading loop when the stream dries up */
+static void dry_pipe (int which, int cutk)
+{	FB f ; size_t top, at ; long cut, full ; int pfd [2] ; SF_INFO si ; SNDFILE *s ; static short sb [4096] ; sf_count_t r ; int k ;
+	static const long cuts [] = { 30, 1000, 20000, 70000, 110000, 149000, 199990, -10, 0 } ;
+	memset (&f, 0, sizeof (f)) ;
+	if (which == 0) { fb_id (&f, ".snd") ; fb_be32 (&f, 200000) ; fb_be32 (&f, 0xffffffffu) ; fb_be32 (&f, 3) ; fb_be32 (&f, 8000) ; fb_be32 (&f, 1) ; fb_put (&f, NULL, 200000 - 24) ; fb_audio (&f, 2000, 1, 2, 1, 0) ; }
+	else if (which == 1) { fb_id (&f, "RIFF") ; top = f.n ; fb_le32 (&f, 0) ; fb_id (&f, "WAVE") ; fb_wav_fmt (&f, 1, 1, 8000, 2, 0, 0) ; at = fb_begin (&f, "JUNK") ; fb_put (&f, NULL, 150000) ; fb_end (&f, at, 0) ; at = fb_begin (&f, "data") ; fb_audio (&f, 2000, 1, 2, 0, 0) ; fb_end (&f, at, 0) ; fb_end (&f, top, 0) ; }
+	else { fb_id (&f, "FORM") ; top = f.n ; fb_le32 (&f, 0) ; fb_id (&f, "AIFF") ; at = fb_begin (&f, "COMM") ; fb_be16 (&f, 1) ; fb_be32 (&f, 2000) ; fb_be16 (&f, 16) ; fb_rate80 (&f, 8000) ; fb_end (&f, at, 1) ; at = fb_begin (&f, "APPL") ; fb_id (&f, "junk") ; fb_put (&f, NULL, 150000) ; fb_end (&f, at, 1) ; at = fb_begin (&f, "SSND") ; fb_be32 (&f, 0) ; fb_be32 (&f, 0) ; fb_audio (&f, 2000, 1, 2, 1, 0) ; fb_end (&f, at, 1) ; fb_end (&f, top, 1) ; }
+	full = (long) f.n ; cut = cuts [cutk] <= 0 ? full + cuts [cutk] : cuts [cutk] ; if (cut > full) cut = full ;
+	if (pipe (pfd)) { free (f.b) ; return ; }
+	fcntl (pfd [1], 1031 /* F_SETPIPE_SZ */, 1 << 20) ;
+	if (write (pfd [1], f.b, (size_t) cut) != cut) { close (pfd [0]) ; close (pfd [1]) ; free (f.b) ; vh_stat ("dry_pipe_setup_failed", 1) ; return ; }
+	close (pfd [1]) ; free (f.b) ;
+	memset (&si, 0, sizeof (si)) ; s = sf_open_fd (pfd [0], SFM_READ, &si, 0) ; vh_stat ("dry_pipe_opens", 1) ;
+	if (s == NULL) { if (sf_error (NULL) == 0) vh_viol (vh_key ("C15|open-fails-without-error|dry-pipe|%d", which), "NULL without error, stream of %ld bytes cut at %ld", full, cut) ; vh_stat ("dry_pipe_opens_refused", 1) ; }
+	else
+	{	if (si.channels == 1) for (k = 0 ; k < 4 ; k++) { r = sf_read_short (s, sb, 1000) ; if (r < 0 || r > 1000) vh_viol (vh_key ("C15|return-range|read|dry-pipe|%d", which), "asked 1000 returned %lld", (long long) r) ; if (r > 0) vh_stat ("dry_pipe_items_read", (long) r) ; }
+		sf_close (s) ; }
+	close (pfd [0]) ;
+}
+
 int main (int argc, char **argv)
 {	int f, c, wl, t ;
 	vh_init (argc, argv, "c15_io_faults", "C15") ;
@@ -223,5 +246,7 @@ int main (int argc, char **argv)
 		mv_free (&base) ;
 		}
 		}
+	for (f = 0 ; f < 3 ; f++) for (c = 0 ; c < 9 ; c++) if (vh_case ("pipe that dries up: %s with a 150-200 KB skippable region, cut %d", f == 0 ? "AU" : f == 1 ? "WAV" : "AIFF", c))
+	{	cur_fn = f == 0 ? "AU/PCM_16" : f == 1 ? "WAV/PCM_16" : "AIFF/PCM_16" ; vh_distinct (0xD0000 + f * 16 + c) ; if (f == 0 && c == 0) vh_sample ("AU / WAV / AIFF streams with a skippable region larger than the header cache, written into a pipe up to 9 cut points, writer closed: open and reads must return") ; dry_pipe (f, c) ; }
 	return vh_finish () ;
 }
